@@ -68,6 +68,24 @@ class AnnotatedTypeHint(TypeHint):
         )
 
 
+    def _is_subhint(self, other: TypeHint) -> bool:
+
+        # Return true only if either...
+        return (
+            # The metahint annotated by this hint is a subhint of the other hint
+            # as a whole. Since annotations only ever narrow a metahint, this
+            # hint is then necessarily a subhint of that other hint as well.
+            # Testing this metahint against each branch of that other hint
+            # (e.g., child hint of a union) in isolation as the superclass
+            # implementation does would erroneously fail for metahints only
+            # jointly covered by those branches: e.g.,
+            #     Annotated[Literal[0, None], 'meta'] <= Union[Literal[0], None]
+            self._metahint_wrapper.is_subhint(other) or
+            # This hint is a subhint of some branch of that other hint.
+            super()._is_subhint(other)
+        )
+
+
     def _is_subhint_branch(self, branch: TypeHint) -> bool:
 
         # If the other type is not annotated, we ignore annotations on this
@@ -80,7 +98,7 @@ class AnnotatedTypeHint(TypeHint):
         if (
             # The child type hint annotated by this parent hint does not subhint
             # the child type hint annotated by that parent hint *OR*...
-            self._metahint_wrapper > branch._metahint_wrapper or
+            not self._metahint_wrapper.is_subhint(branch._metahint_wrapper) or
             # These hints are annotated by a differing number of objects...
             len(self._metadata) != len(branch._metadata)
         ):
